@@ -59,7 +59,7 @@ def _construct(patts, how):
     raise KeyError(how)
 
 
-def well_formed(av, spec, mesh):
+def well_formed(av, spec, mesh, level_set=None, cap=None):
     """Representation invariant of DESIGN section 7 / C02 (message or None).
 
     cache[0] has the single key Perm(); keys(cache[i]) == Av_i for every level
@@ -72,6 +72,8 @@ def well_formed(av, spec, mesh):
     are constrained (the values are never read)."""
     from permuta import Perm
 
+    level_set = level_set or K.level_set  # (n, spec) -> frozenset of tuples
+    cap = CAP_CLASSICAL if cap is None else cap
     cache = getattr(av, "cache", None)
     if cache is None or not isinstance(cache, list):
         return None
@@ -82,7 +84,7 @@ def well_formed(av, spec, mesh):
     n_levels = len(cache)
     for i, lv in enumerate(cache):
         keys = set(tuple(p) for p in lv)
-        want = K.level_set(i, spec)
+        want = level_set(i, spec)
         if i == 0:
             want = frozenset({()})  # the seed level is part of the representation
         if keys != want:
@@ -101,9 +103,9 @@ def well_formed(av, spec, mesh):
         for p, lis in lv.items():
             if not isinstance(lis, list):
                 return f"cache[{i}][{tuple(p)}] = {lis!r} in one of the last two levels"
-            if i + 1 > CAP_CLASSICAL or (i == n_levels - 1 and not lis):
+            if i + 1 > cap or (i == n_levels - 1 and not lis):
                 continue
-            nxt = K.level_set(i + 1, spec)
+            nxt = level_set(i + 1, spec)
             t = tuple(p)
             good = {v for v in range(i + 1) if tuple(x + (x >= v) for x in t) + (v,) in nxt}
             got = set(lis)
